@@ -201,3 +201,7 @@ impl Iterator for Iter<'_> {
         self.0.next()
     }
 }
+
+#[cfg(kani)]
+#[path = "/verif/kani/termarena.rs"]
+mod verif_kani;
